@@ -51,7 +51,7 @@ RoundTrip == \A h \in Produced : Parse(Encode(h)) = h
 \* ---- the enumerated space ---------------------------------------------------------------------------
 AllTcp == {Tcp(t, h, p, pr) : t \in Types \ {"relay-v1"}, h \in Kinds, p \in Kinds, pr \in Kinds}
 \* sub-hints of relays: representative malformed and well-formed ones
-SubChoices == {NonObj} \cup {Tcp(t, h, p, pr) : t \in {"direct-tcp-v1", "tor-tcp-v1", "unknown-v9", "missing"},
+SubChoices == {NonObj} \cup {Tcp(t, h, p, pr) : t \in {"direct-tcp-v1", "tor-tcp-v1", "unknown-v9", "missing", "nonstr"},
                                               h \in {"str", "int", "missing"}, p \in {"int", "str", "bool", "missing"},
                                               pr \in {"float", "str", "list", "dict", "missing", "null"}}
 AllRelay == {Relay(sk, <<>>) : sk \in SubKinds}
